@@ -690,7 +690,12 @@ func (db *RockDB) DelIfEQ(ts int64, rawKey []byte, oldV []byte) (int64, error) {
 
 func (db *RockDB) SetRange(ts int64, rawKey []byte, offset int, value []byte) (int64, error) {
 	if len(value) == 0 {
-		return 0, nil
+		// nothing to write: answer the current length (redis), judged at the log timestamp
+		keyInfo, realV, err := db.getDBKVRealValueAndHeader(ts, rawKey, false)
+		if err != nil || keyInfo.Expired {
+			return 0, err
+		}
+		return int64(len(realV)), nil
 	}
 	if offset < 0 || offset > MaxValueSize || len(value)+offset > MaxValueSize {
 		return 0, errValueSize
@@ -775,9 +780,8 @@ func (db *RockDB) StrLen(key []byte) (int64, error) {
 }
 
 func (db *RockDB) Append(ts int64, rawKey []byte, value []byte) (int64, error) {
-	if len(value) == 0 {
-		return 0, nil
-	}
+	// appending the empty string is an ordinary append (redis): it answers the current
+	// length and creates an empty value for a missing key
 
 	keyInfo, realV, err := db.prepareKVValueForWrite(ts, rawKey, false)
 	if err != nil {
